@@ -1167,3 +1167,80 @@ func (c *Chain) Mutate(id string, seed uint64, sb *refspec.SignedBlock, head, pr
 	}
 	return m.B, m
 }
+
+// ResignAll re-signs every signature inside the block (randao reveal, slashing headers and votes,
+// attestations, exits, credential changes, sync aggregate) with the keys of whoever the — possibly
+// corrupted — fields name, on the state `pre` (the reference state advanced to the block's slot), and
+// finally the block itself with the named proposer's key. Parts whose signers cannot be determined
+// (committee of an impossible slot, unknown validator) keep their signature. Deposits carry a proof of
+// possession checked against the deposit's own pubkey and are left alone.
+// The byte-level differential (C03) uses this to let arbitrary field edits reach the semantic checks.
+func ResignAll(c *Chain, pre *refspec.State, sb *refspec.SignedBlock) {
+	m := &MutCtx{C: c, Pre: pre, B: sb, Pr: &prng{1}}
+	sp := c.Sp
+	b := &sb.Message.Body
+	try := func(f func()) {
+		defer func() { recover() }()
+		f()
+	}
+	pk, pok := m.keyOfValidator(sb.Message.ProposerIndex)
+	if pok {
+		try(func() {
+			epoch := sp.EpochAtSlot(sb.Message.Slot)
+			b.RandaoReveal = refspec.Sign(pk, sp.ComputeSigningRoot(sp.HTR("Epoch", epoch), sp.GetDomainNow(pre, refspec.DOMAIN_RANDAO)))
+		})
+	}
+	for i := range b.ProposerSlashings {
+		ps := &b.ProposerSlashings[i]
+		for _, h := range []*refspec.SignedBeaconBlockHeader{&ps.H1, &ps.H2} {
+			h := h
+			if k, ok := m.keyOfValidator(h.Message.ProposerIndex); ok {
+				try(func() { signHeader(m, h, k) })
+			}
+		}
+	}
+	for i := range b.AttesterSlashings {
+		as := &b.AttesterSlashings[i]
+		try(func() { m.signIndexed(&as.A1) })
+		try(func() { m.signIndexed(&as.A2) })
+	}
+	for i := range b.Attestations {
+		a := &b.Attestations[i]
+		try(func() {
+			if ks := m.attKeys(a); len(ks) > 0 {
+				m.signAtt(a, ks, refspec.DOMAIN_BEACON_ATTESTER)
+			}
+		})
+	}
+	for i := range b.VoluntaryExits {
+		e := &b.VoluntaryExits[i]
+		if k, ok := m.keyOfValidator(e.Message.ValidatorIndex); ok {
+			try(func() { m.signExit(e, k, m.exitDomain(&e.Message)) })
+		}
+	}
+	for i := range b.BLSChanges {
+		ch := &b.BLSChanges[i]
+		if k, ok := m.keyOfValidator(ch.Message.ValidatorIndex); ok && ch.Message.FromBLSPubkey == refspec.KeyPubkey(WithdrawalKeyBase+k) {
+			try(func() {
+				dom := sp.ComputeDomain(refspec.DOMAIN_BLS_TO_EXECUTION_CHANGE, sp.P.ForkVersions[refspec.Phase0], pre.GenesisValidatorsRoot)
+				ch.Signature = refspec.Sign(WithdrawalKeyBase+k, sp.ComputeSigningRoot(sp.HTR("BLSToExecutionChange", ch.Message.V()), dom))
+			})
+		}
+	}
+	if pre.Fork >= refspec.Altair && sb.Message.Slot > 0 && len(b.SyncAggregate.Bits) == len(pre.CurrentSyncCommittee.Pubkeys) {
+		try(func() {
+			ks, root := m.syncKeysAndRoot()
+			if len(ks) == 0 {
+				b.SyncAggregate.Signature = refspec.G2PointAtInfinity
+				return
+			}
+			dom := sp.GetDomain(pre, refspec.DOMAIN_SYNC_COMMITTEE, sp.EpochAtSlot(sb.Message.Slot-1))
+			b.SyncAggregate.Signature = refspec.AggregateSign(ks, sp.ComputeSigningRoot(root, dom))
+		})
+	}
+	if pok {
+		try(func() {
+			sb.Signature = refspec.Sign(pk, sp.ComputeSigningRoot(sp.BlockRoot(&sb.Message), sp.GetDomainNow(pre, refspec.DOMAIN_BEACON_PROPOSER)))
+		})
+	}
+}
